@@ -2,9 +2,14 @@
 Driver/C06 — runs Model/SaveProtocols over Spec/Fs on the request stream of harness/src/bin/c06.rs.
 
   begin <routine> … jver=<v> jmax=<m>           -> ok          (directory := empty)
-  step <script> | <model parameters>            -> the trace the model produces, then dir := run dir trace
-  state <i> <k>                                 -> name:len:synced:fnv …  of `run before (cutAt trace i k)`
+  step <script> | <model parameters>            -> the calls the model produces, then dir := run dir (their effect)
+       idx parameters: v=<version> <bucket>=<file bytes> … [o<bucket>=<outcome>,<outcome>,…]
+       outcome = k (ok) | c (create failed) | w<n> (write failed, n bytes reached the file) | s | r
+  state <i> <k>                                 -> name:len:synced:fnv …  of `run before (cutAtCalls calls i k)`
   resume <i> <k> <asis|trunc|zeros>             -> name:len:fnv …        of the crash image; dir := image
+  jload <hex|-|none>                            -> [s1,s2,…]   `ExtractorCompactorBackup::load` on that file content
+  lload <name>:<0|1>,…                          -> fresh | loaded <gen> | err   `run_cycle`'s load step on a directory
+                                                   listing (1 = `lru_file::deserialize` accepts the file)
 -/
 import Driver.Common
 import Cascette.Spec.Fs
@@ -18,7 +23,7 @@ structure St where
   dir : Dir String := fun _ => none
   names : List String := []
   before : Dir String := fun _ => none
-  trace : List (Op String) := []
+  trace : List (Call String) := []
   jver : Nat := 1
   jmax : Nat := 1023
 
@@ -45,16 +50,42 @@ def traceText (d : Dir String) (t : List (Op String)) : String :=
   let (_, out) := t.foldl (fun (acc : Dir String × List String) o => (step acc.1 o, opText acc.1 o :: acc.2)) (d, [])
   ";".intercalate out.reverse
 
-/-- the harness's canonical form of a trace: consecutive writes to one file coalesced, empty writes
+/-- the harness's canonical form of a trace: failed writes and failed fsyncs dropped (they change
+nothing and the harness only counts them), consecutive writes to one file coalesced, empty writes
 (no system call is made for them) dropped. -/
-def canon : List (Op String) → List (Op String)
+def canon : List (Call String) → List (Call String)
   | [] => []
-  | .write n bs :: rest =>
+  | .failed (.write _ _) :: rest => canon rest
+  | .failed (.fsync _) :: rest => canon rest
+  | .did (.write n bs) :: rest =>
     match canon rest with
-    | .write m cs :: r => if n = m then .write n (bs ++ cs) :: r else
-        if bs.isEmpty then .write m cs :: r else .write n bs :: .write m cs :: r
-    | r => if bs.isEmpty then r else .write n bs :: r
+    | .did (.write m cs) :: r => if n = m then .did (.write n (bs ++ cs)) :: r else
+        if bs.isEmpty then .did (.write m cs) :: r else .did (.write n bs) :: .did (.write m cs) :: r
+    | r => if bs.isEmpty then r else .did (.write n bs) :: r
   | o :: rest => o :: canon rest
+
+def callText (d : Dir String) : Call String → String
+  | .did o => opText d o
+  | .failed (.create n) => s!"creat! {n}"
+  | .failed (.openAppend n) => s!"append! {n}"
+  | .failed (.rename a b) => s!"rename! {a} {b}"
+  | .failed (.unlink n) => s!"unlink! {n}"
+  | .failed (.write n _) => s!"write! {n}"
+  | .failed (.fsync n) => s!"fsync! {n}"
+
+def callsText (d : Dir String) (t : List (Call String)) : String :=
+  if t.isEmpty then "-" else
+  let (_, out) := t.foldl (fun (acc : Dir String × List String) c =>
+    (c.eff.foldl step acc.1, callText acc.1 c :: acc.2)) (d, [])
+  ";".intercalate out.reverse
+
+def attemptOf (t : String) : Option Attempt :=
+  if t == "k" then some .ok
+  else if t == "c" then some .failCreate
+  else if t == "s" then some .failSync
+  else if t == "r" then some .failRename
+  else if t.startsWith "w" then (t.drop 1).toString.toNat?.map .failWrite
+  else none
 
 def insertSorted (n : String) : List String → List String
   | [] => [n]
@@ -75,20 +106,8 @@ def asciiOfHex (h : String) : Option String :=
   (parseHexNat h).map fun l => String.ofList (l.map Char.ofNat)
 
 /-- the trace of one save, from the model parameters and the current directory. -/
-def modelTrace (st : St) (p : List String) : Option (List (Op String)) :=
+def modelOps (st : St) (p : List String) : Option (List (Op String)) :=
   match p with
-  | "idx" :: rest =>
-    let ver := ((kv rest "v").bind String.toNat?).getD 1
-    let buckets := rest.filterMap fun t =>
-      match t.splitOn "=" with
-      | [b, h] =>
-        if b == "v" then none else
-        match parseHexNat b, parseHex h with
-        | some [bn], some bytes =>
-          some ({ tmp := String.ofList (idxTmp bn ver), fin := String.ofList (idxName bn ver), bytes := bytes, outcomes := [] } : BucketSave String)
-        | _, _ => none
-      | _ => none
-    some (saveAll buckets)
   | "res" :: rest =>
     match (kv rest "name").bind asciiOfHex, kv rest "dirty", (kv rest "data").bind parseHex with
     | some name, some dirty, some bytes =>
@@ -114,6 +133,24 @@ def modelTrace (st : St) (p : List String) : Option (List (Op String)) :=
     | none => none
   | _ => none
 
+/-- the calls of one save, from the model parameters and the current directory. -/
+def modelTrace (st : St) (p : List String) : Option (List (Call String)) :=
+  match p with
+  | "idx" :: rest =>
+    let ver := ((kv rest "v").bind String.toNat?).getD 1
+    let buckets := rest.filterMap fun t =>
+      match t.splitOn "=" with
+      | [b, h] =>
+        if b == "v" || b.startsWith "o" then none else
+        match parseHexNat b, parseHex h with
+        | some [bn], some bytes =>
+          let outs := ((kv rest ("o" ++ b)).map fun o => (o.splitOn ",").filterMap attemptOf).getD []
+          some ({ tmp := String.ofList (idxTmp bn ver), fin := String.ofList (idxName bn ver), bytes := bytes, outcomes := outs } : BucketSave String)
+        | _, _ => none
+      | _ => none
+    some (saveAllCalls buckets)
+  | _ => (modelOps st p).map fun t => t.map Call.did
+
 def variantOf : String → Option Variant
   | "asis" => some .asis
   | "trunc" => some .trunc
@@ -132,11 +169,11 @@ def handle (st : St) (toks : List String) : St × String :=
     | none => (st, "bad-op")
     | some t =>
       let t := canon t
-      let names := (t.flatMap opNames).foldl (fun acc n => insertSorted n acc) st.names
-      let after := run st.dir t
+      let names := ((effOps t).flatMap opNames).foldl (fun acc n => insertSorted n acc) st.names
+      let after := run st.dir (effOps t)
       -- the process has exited and the history goes on: everything it wrote is on disk
       let settled : Dir String := fun n => (after n).map fun f => { f with synced := f.data.length }
-      ({ st with before := st.dir, trace := t, names := names, dir := settled }, traceText st.dir t)
+      ({ st with before := st.dir, trace := t, names := names, dir := settled }, callsText st.dir t)
   | ["pre", ops] =>
     -- what the saving process's own reopen did before the save (run_cycle's scan_directory)
     let d := (ops.splitOn ",").foldl (fun (d : Dir String) o =>
@@ -147,15 +184,36 @@ def handle (st : St) (toks : List String) : St × String :=
   | ["state", i, k] =>
     match i.toNat?, k.toNat? with
     | some i, some k =>
-      let d := run st.before (cutAt st.trace i k)
+      let d := run st.before (cutAtCalls st.trace i k)
       (st, listing true st.names fun n => (d n).map fun f => (f.data, f.synced))
     | _, _ => (st, "bad-op")
   | ["resume", i, k, v] =>
     match i.toNat?, k.toNat?, variantOf v with
     | some i, some k, some v =>
-      let img := dirImage v (run st.before (cutAt st.trace i k))
+      let img := dirImage v (run st.before (cutAtCalls st.trace i k))
       ({ st with dir := ofData img }, listing false st.names fun n => (img n).map fun b => (b, b.length))
     | _, _, _ => (st, "bad-op")
+  | ["jload", c] =>
+    let content : Option (Option Bytes) :=
+      if c == "none" then some none else if c == "-" then some (some []) else (parseHex c).map some
+    match content with
+    | some c => (st, "[" ++ ",".intercalate ((journalLoad (BitVec.ofNat 8 st.jver) c).map toString) ++ "]")
+    | none => (st, "bad-op")
+  | ["lload", listing] =>
+    let files : List (String × Bool) := (listing.splitOn ",").filterMap fun t =>
+      match t.splitOn ":" with
+      | [n, f] => some (n, f == "1")
+      | _ => none
+    -- generations that have a file with a generation name (`filename_to_generation`)
+    let gens := files.filterMap fun (n, _) =>
+      if isLruName n.toList then (parseHexNat ((n.take 16).toString)).map (fun bs => bs.foldl (fun a b => a * 256 + b) 0) else none
+    let img : String → Option Bytes := fun n =>
+      (files.find? (fun p => p.1 == n)).map fun p => if p.2 then [1] else [0]
+    let deser : Bytes → Option Unit := fun b => if b == [1] then some () else none
+    match lruLoad (fun g => String.ofList (lruName g)) deser gens img with
+    | .fresh => (st, "fresh")
+    | .loaded g _ => (st, s!"loaded {g}")
+    | .err => (st, "err")
   | _ => (st, "bad-op")
 
 end C06
